@@ -86,8 +86,27 @@ func choiceN(ss []Stmt) Stmt {
 // ---------------------------------------------------------------- contracts
 
 type lstate struct {
-	mu     bool
+	held   []int // mutex ids, sorted
 	sender bool
+}
+
+func (l lstate) anyMutex() bool { return len(l.held) > 0 }
+
+// mutexDef names one abstract mutex: the field <key> (pkgpath.Type.field); when varName is
+// set, only the instance reached through a variable of that name (a second instance of the
+// same class held at the same time, e.g. Promise.mu of `parent` in Promise.Join).
+type mutexDef struct {
+	name    string
+	id      int
+	key     string
+	varName string
+}
+
+type pkgDef struct {
+	path   string
+	dir    string
+	files  map[string]bool // nil: all non-test files
+	prefix string
 }
 
 type exitC struct {
@@ -112,6 +131,9 @@ type contract struct {
 }
 
 type tables struct {
+	mutexes   []mutexDef
+	pkgs      []pkgDef
+	nilerr    map[string]bool
 	fns       map[string]*contract
 	params    map[string]*contract // "<fn>.<param>"
 	extern    map[string]string
@@ -123,21 +145,25 @@ type tables struct {
 	usedKeys  map[string]bool
 }
 
+var mutexNames = map[string]int{}
+
 func parseLocks(s string) (lstate, error) {
 	var l lstate
 	if s == "-" {
 		return l, nil
 	}
 	for _, p := range strings.Split(s, ",") {
-		switch p {
-		case "mu":
-			l.mu = true
-		case "sender":
+		if p == "sender" {
 			l.sender = true
-		default:
+			continue
+		}
+		id, ok := mutexNames[p]
+		if !ok {
 			return l, fmt.Errorf("unknown lock %q", p)
 		}
+		l.held = append(l.held, id)
 	}
+	sort.Ints(l.held)
 	return l, nil
 }
 
@@ -193,6 +219,45 @@ func readContracts(path string) (*tables, error) {
 	t := &tables{fns: map[string]*contract{}, params: map[string]*contract{}, extern: map[string]string{},
 		iface: map[string]string{}, funcval: map[string]string{}, pkg: map[string]string{},
 		sensitive: map[string]bool{}, waitgroup: map[string]string{}, usedKeys: map[string]bool{}}
+	t.nilerr = map[string]bool{}
+	// first pass: mutex and package declarations (contracts refer to mutex names)
+	for n, line := range strings.Split(string(b), "\n") {
+		if i := strings.Index(line, "#"); i >= 0 {
+			line = line[:i]
+		}
+		f := strings.Fields(line)
+		if len(f) == 0 {
+			continue
+		}
+		switch f[0] {
+		case "mutex": // mutex <name> <id> <pkgpath.Type.field> [var=<ident>]
+			if len(f) < 4 {
+				return nil, fmt.Errorf("%s:%d: bad mutex line", path, n+1)
+			}
+			m := mutexDef{name: f[1], key: f[3]}
+			fmt.Sscan(f[2], &m.id)
+			if len(f) > 4 && strings.HasPrefix(f[4], "var=") {
+				m.varName = f[4][4:]
+			}
+			t.mutexes = append(t.mutexes, m)
+			mutexNames[m.name] = m.id
+		case "package": // package <import path> <dir> <files|*> [prefix=<p>]
+			if len(f) < 4 {
+				return nil, fmt.Errorf("%s:%d: bad package line", path, n+1)
+			}
+			p := pkgDef{path: f[1], dir: f[2]}
+			if f[3] != "*" {
+				p.files = map[string]bool{}
+				for _, x := range strings.Split(f[3], ",") {
+					p.files[x] = true
+				}
+			}
+			if len(f) > 4 && strings.HasPrefix(f[4], "prefix=") {
+				p.prefix = f[4][7:]
+			}
+			t.pkgs = append(t.pkgs, p)
+		}
+	}
 	var cur *contract
 	for n, line := range strings.Split(string(b), "\n") {
 		if i := strings.Index(line, "#"); i >= 0 {
@@ -214,6 +279,9 @@ func readContracts(path string) (*tables, error) {
 					cur.api, cur.apiSet = false, true
 				case "exclusive":
 					cur.exclusive = true
+				case "nilerr":
+					// outcome by the returned pointer: literal nil = err, anything else = ok
+					t.nilerr[f[1]] = true
 				default:
 					return nil, bad("unknown attribute " + a)
 				}
@@ -247,6 +315,7 @@ func readContracts(path string) (*tables, error) {
 			t.sensitive[f[1]] = true
 		case "waitgroup":
 			t.waitgroup[f[1]] = f[2]
+		case "mutex", "package":
 		default:
 			return nil, bad("unknown directive " + f[0])
 		}
@@ -278,6 +347,28 @@ type global struct {
 	order  []string
 	errs   []string
 	params map[types.Object]string // parameter object -> "<fn>.<param>" when a param contract exists
+	prefixes map[string]string     // import path of a translated package -> name prefix
+	declared map[string]bool       // functions that get a lock program
+}
+
+// buildOK evaluates the few build constraints used in the repository (go1.x tags are true).
+func buildOK(expr string) bool {
+	expr = strings.TrimSpace(expr)
+	if strings.HasPrefix(expr, "!") {
+		return !buildOK(expr[1:])
+	}
+	return strings.HasPrefix(expr, "go1.")
+}
+
+// inPkg: f belongs to a translated package and has a lock program.
+func (g *global) inPkg(f *types.Func) bool {
+	if f.Pkg() == nil {
+		return false
+	}
+	if _, ok := g.prefixes[f.Pkg().Path()]; !ok {
+		return false
+	}
+	return g.declared[g.fnName(f)]
 }
 
 func (g *global) failf(pos token.Pos, fn string, format string, a ...interface{}) {
@@ -294,7 +385,9 @@ type tr struct {
 	top       []ast.Stmt
 	exclusive bool
 	results   *ast.FieldList
-	brk       []string // stack of break targets: "loop" | "switch"
+	brk       []string // stack of break targets: "loop" | "loop:<label>" | "switch" | "switchloop"
+	curList   []ast.Stmt
+	pendLabel string
 	inGoto    bool
 }
 
@@ -359,13 +452,91 @@ func typeKey(t types.Type) string {
 }
 
 func (g *global) fnName(f *types.Func) string {
+	pre := ""
+	if f.Pkg() != nil {
+		if p := g.prefixes[f.Pkg().Path()]; p != "" {
+			pre = p + "."
+		}
+	}
 	sig := f.Type().(*types.Signature)
 	if r := sig.Recv(); r != nil {
 		if n := namedOf(r.Type()); n != nil {
-			return n.Obj().Name() + "." + f.Name()
+			return pre + n.Obj().Name() + "." + f.Name()
 		}
 	}
-	return f.Name()
+	return pre + f.Name()
+}
+
+func rootIdent(e ast.Expr) string {
+	for {
+		switch x := unparen(e).(type) {
+		case *ast.Ident:
+			return x.Name
+		case *ast.SelectorExpr:
+			e = x.X
+		case *ast.StarExpr:
+			e = x.X
+		case *ast.IndexExpr:
+			e = x.X
+		case *ast.UnaryExpr:
+			e = x.X
+		default:
+			return ""
+		}
+	}
+}
+
+// mutexID: the abstract mutex of field key reached through a variable named root.
+func (g *global) mutexID(key, root string) (int, bool) {
+	def := -1
+	for _, m := range g.tab.mutexes {
+		if m.key != key {
+			continue
+		}
+		if m.varName != "" && m.varName == root {
+			return m.id, true
+		}
+		if m.varName == "" {
+			def = m.id
+		}
+	}
+	return def, def >= 0
+}
+
+// rebindOf: assigning to the variable v re-targets the mutex named through it (classes with
+// several instances only): returns the ids concerned.
+func (g *global) rebindOf(v *ast.Ident) []int {
+	obj := g.info.Uses[v]
+	if obj == nil {
+		obj = g.info.Defs[v]
+	}
+	if obj == nil {
+		return nil
+	}
+	n := namedOf(obj.Type())
+	if n == nil || n.Obj().Pkg() == nil {
+		return nil
+	}
+	owner := n.Obj().Pkg().Path() + "." + n.Obj().Name()
+	multi := false
+	for _, m := range g.tab.mutexes {
+		if strings.HasPrefix(m.key, owner+".") && m.varName != "" {
+			multi = true
+		}
+	}
+	if !multi {
+		return nil
+	}
+	var ids []int
+	for _, m := range g.tab.mutexes {
+		if strings.HasPrefix(m.key, owner+".") {
+			if id, ok := g.mutexID(m.key, v.Name); ok {
+				ids = append(ids, id)
+			}
+			break
+		}
+	}
+	return ids
 }
 
 func (g *global) classStmt(t *tr, pos token.Pos, class string) Stmt {
@@ -492,8 +663,47 @@ func (t *tr) runDefers() Stmt {
 
 func (t *tr) list(ss []ast.Stmt, from int) Stmt {
 	var out []Stmt
+	ndefers := len(t.defers)
+	saveList := t.curList
+	t.curList = ss
 	for i := from; i < len(ss); i++ {
+		// X = f(..) ; if X ==|!= nil { A } else { B }   for an outcome-split function f
+		if as, ok := ss[i].(*ast.AssignStmt); ok && len(as.Rhs) == 1 && len(as.Lhs) == 1 && i+1 < len(ss) {
+			if call, name, ok := t.splitCall(as.Rhs[0]); ok {
+				if ifs, ok := ss[i+1].(*ast.IfStmt); ok && ifs.Init == nil {
+					if be, ok := unparen(ifs.Cond).(*ast.BinaryExpr); ok && (be.Op == token.EQL || be.Op == token.NEQ) &&
+						exprText(be.X) == exprText(as.Lhs[0]) && exprText(be.Y) == "nil" {
+						pre := t.callArgs(call)
+						a := t.block(ifs.Body)
+						var b Stmt = sSkip{}
+						if ifs.Else != nil {
+							t.depth++
+							b = t.stmt(ifs.Else)
+							t.depth--
+						}
+						// a runs when X == nil (EQL) / X != nil (NEQ)
+						nilIsErr := t.g.tab.nilerr[name]
+						var okS, errS Stmt
+						if (be.Op == token.EQL) == nilIsErr {
+							okS, errS = b, a
+						} else {
+							okS, errS = a, b
+						}
+						out = append(out, seq(pre, t.mark(call.Pos()), sCall{f: name, ok: okS, err: errS, line: t.line(call.Pos())}))
+						i++
+						continue
+					}
+				}
+				t.failf(as.Pos(), "outcome of %s must be tested by the next statement `if x == nil`", name)
+				continue
+			}
+		}
 		out = append(out, t.stmt(ss[i]))
+	}
+	t.curList = saveList
+	if t.depth > 0 && len(t.defers) > ndefers {
+		// defers registered in a nested block: only accepted when the block ends in a return
+		t.defers = t.defers[:ndefers]
 	}
 	return seq(out...)
 }
@@ -569,6 +779,11 @@ func (t *tr) stmt(s ast.Stmt) Stmt {
 		}
 		for _, l := range s.Lhs {
 			out = append(out, t.lhs(l))
+			if id, ok := unparen(l).(*ast.Ident); ok && s.Tok == token.ASSIGN {
+				for _, m := range t.g.rebindOf(id) {
+					out = append(out, t.act(s.Pos(), fmt.Sprintf("ARebind %d", m)))
+				}
+			}
 		}
 		// the sender lock is taken by  c.sendCond = make(chan struct{})
 		if len(s.Lhs) == 1 && len(s.Rhs) == 1 {
@@ -588,13 +803,21 @@ func (t *tr) stmt(s ast.Stmt) Stmt {
 	case *ast.BlockStmt:
 		return t.block(s)
 	case *ast.LabeledStmt:
-		return t.stmt(s.Stmt)
+		t.pendLabel = s.Label.Name
+		r := t.stmt(s.Stmt)
+		t.pendLabel = ""
+		return r
 	case *ast.ReturnStmt:
 		return t.returnStmt(s)
 	case *ast.DeferStmt:
 		if t.depth != 0 {
-			t.failf(s.Pos(), "defer inside a nested block is not supported")
-			return sSkip{}
+			// accepted only when the enclosing statement list ends in a return: the deferred
+			// call is then pending exactly for the rest of that list
+			last := t.curList[len(t.curList)-1]
+			if _, ok := last.(*ast.ReturnStmt); !ok {
+				t.failf(s.Pos(), "defer inside a nested block that does not end in a return is not supported")
+				return sSkip{}
+			}
 		}
 		var pre []Stmt
 		for _, a := range s.Call.Args {
@@ -616,8 +839,15 @@ func (t *tr) stmt(s ast.Stmt) Stmt {
 			name := t.closure(lit, "spawn", nil)
 			return seq(seq(pre...), t.mark(s.Pos()), sSpawn{name})
 		}
-		if f, ok := t.g.callee(s.Call.Fun).(*types.Func); ok && f.Pkg() == t.g.pkg {
+		if f, ok := t.g.callee(s.Call.Fun).(*types.Func); ok && t.g.inPkg(f) {
 			return seq(seq(pre...), t.mark(s.Pos()), sSpawn{t.g.fnName(f)})
+		}
+		// go <function value>(..): application code in a goroutine of its own, nothing of this
+		// thread's state is involved
+		if _, isFunc := t.g.callee(s.Call.Fun).(*types.Func); !isFunc {
+			if cl, ok := t.g.tab.funcval[exprText(s.Call.Fun)]; ok && cl == "callout" {
+				return seq(pre...)
+			}
 		}
 		t.failf(s.Pos(), "go statement with an unsupported callee")
 		return sSkip{}
@@ -634,7 +864,8 @@ func (t *tr) stmt(s ast.Stmt) Stmt {
 		if !isSkip(post) && hasBranch(s.Body, token.CONTINUE, false) {
 			t.failf(s.Pos(), "continue in a loop whose post statement has lock effects")
 		}
-		t.brk = append(t.brk, "loop")
+		t.brk = append(t.brk, "loop:"+t.pendLabel)
+		t.pendLabel = ""
 		body := t.block(s.Body)
 		t.brk = t.brk[:len(t.brk)-1]
 		return seq(init, sLoop{seq(condS, body, post)})
@@ -658,8 +889,25 @@ func (t *tr) stmt(s ast.Stmt) Stmt {
 	case *ast.SelectStmt:
 		return t.clauses(s, s.Body, true)
 	case *ast.BranchStmt:
+		if s.Label != nil && s.Tok == token.BREAK {
+			// break L where L labels the innermost enclosing loop, from inside switch/select
+			// constructs that are encoded as plain choices
+			for i := len(t.brk) - 1; i >= 0; i-- {
+				if strings.HasPrefix(t.brk[i], "loop") {
+					if t.brk[i] == "loop:"+s.Label.Name {
+						return sBreak{}
+					}
+					break
+				}
+				if t.brk[i] == "switchloop" {
+					break
+				}
+			}
+			t.failf(s.Pos(), "labeled break that does not target the innermost loop through plain switch/select")
+			return sSkip{}
+		}
 		if s.Label != nil && s.Tok != token.GOTO {
-			t.failf(s.Pos(), "labeled break/continue is not supported")
+			t.failf(s.Pos(), "labeled continue is not supported")
 			return sSkip{}
 		}
 		switch s.Tok {
@@ -670,7 +918,7 @@ func (t *tr) stmt(s ast.Stmt) Stmt {
 			return sBreak{}
 		case token.CONTINUE:
 			for i := len(t.brk) - 1; i >= 0; i-- {
-				if t.brk[i] == "loop" {
+				if strings.HasPrefix(t.brk[i], "loop") {
 					break
 				}
 				if t.brk[i] == "switchloop" {
@@ -748,7 +996,7 @@ func (t *tr) clauses(node ast.Node, body *ast.BlockStmt, isSelect bool) Stmt {
 	var alts []Stmt
 	hasDefault := false
 	t.depth++
-	for _, c := range body.List {
+	for ci, c := range body.List {
 		switch c := c.(type) {
 		case *ast.CaseClause:
 			if c.List == nil {
@@ -760,7 +1008,7 @@ func (t *tr) clauses(node ast.Node, body *ast.BlockStmt, isSelect bool) Stmt {
 				}
 				pre = append(pre, t.expr(e))
 			}
-			alts = append(alts, t.list(c.Body, 0))
+			alts = append(alts, t.caseBody(body.List, ci))
 		case *ast.CommClause:
 			if c.Comm == nil {
 				hasDefault = true
@@ -800,6 +1048,22 @@ func (t *tr) clauses(node ast.Node, body *ast.BlockStmt, isSelect bool) Stmt {
 	return seq(seq(pre...), res)
 }
 
+// caseBody: the body of clause i, followed by the next clause's body when it ends in fallthrough.
+func (t *tr) caseBody(clauses []ast.Stmt, i int) Stmt {
+	c := clauses[i].(*ast.CaseClause)
+	body := c.Body
+	if n := len(body); n > 0 {
+		if b, ok := body[n-1].(*ast.BranchStmt); ok && b.Tok == token.FALLTHROUGH {
+			if i+1 >= len(clauses) {
+				t.failf(b.Pos(), "fallthrough in the last clause")
+				return sSkip{}
+			}
+			return seq(t.list(body[:n-1], 0), t.caseBody(clauses, i+1))
+		}
+	}
+	return t.list(body, 0)
+}
+
 // ---------------------------------------------------------------- if / outcome split
 
 // splitCall recognises a call to an in-package function whose contract has several outcomes.
@@ -809,7 +1073,7 @@ func (t *tr) splitCall(e ast.Expr) (*ast.CallExpr, string, bool) {
 		return nil, "", false
 	}
 	f, ok := t.g.callee(c.Fun).(*types.Func)
-	if !ok || f.Pkg() != t.g.pkg {
+	if !ok || !t.g.inPkg(f) {
 		return nil, "", false
 	}
 	name := t.g.fnName(f)
@@ -890,6 +1154,14 @@ func (t *tr) returnStmt(s *ast.ReturnStmt) Stmt {
 				isBool = true
 			}
 			id, isIdent := last.(*ast.Ident)
+			if t.g.tab.nilerr[t.out.name] {
+				// outcome by the returned pointer: literal nil = err, anything else = ok
+				o = 0
+				if isIdent && id.Name == "nil" {
+					o = 1
+				}
+				return seq(seq(pre...), t.runDefers(), t.mark(s.Pos()), sReturn{o})
+			}
 			switch {
 			case isIdent && (id.Name == "nil" || id.Name == "true"):
 				o = 0
@@ -981,7 +1253,7 @@ func (t *tr) callArgs(c *ast.CallExpr) Stmt {
 	}
 	var calleeName string
 	var sig *types.Signature
-	if f, ok := t.g.callee(c.Fun).(*types.Func); ok && f.Pkg() == t.g.pkg {
+	if f, ok := t.g.callee(c.Fun).(*types.Func); ok && t.g.inPkg(f) {
 		calleeName = t.g.fnName(f)
 		sig = f.Type().(*types.Signature)
 	}
@@ -1110,15 +1382,15 @@ func (t *tr) callNoArgs(c *ast.CallExpr) Stmt {
 			}
 			switch rk {
 			case "sync.Mutex":
-				if field == "mu" && strings.HasSuffix(owner, "/rpc.Conn") {
+				if id, ok := g.mutexID(owner+"."+field, rootIdent(sel.X)); ok {
 					switch o.Name() {
 					case "Lock":
-						return t.act(pos, "ALock 0")
+						return t.act(pos, fmt.Sprintf("ALock %d", id))
 					case "Unlock":
-						return t.act(pos, "AUnlock 0")
+						return t.act(pos, fmt.Sprintf("AUnlock %d", id))
 					}
 				}
-				t.failf(pos, "mutex operation %s on %s is not supported", o.Name(), exprText(sel.X))
+				t.failf(pos, "mutex operation %s on %s (%s.%s) is not supported (add `mutex` to the contracts file)", o.Name(), exprText(sel.X), owner, field)
 				return sSkip{}
 			case "sync.WaitGroup":
 				kind := g.tab.waitgroup[field]
@@ -1139,7 +1411,7 @@ func (t *tr) callNoArgs(c *ast.CallExpr) Stmt {
 				return sSkip{}
 			}
 		}
-		if o.Pkg() == g.pkg {
+		if g.inPkg(o) {
 			return seq(t.mark(pos), sCall{f: g.fnName(o), ok: sSkip{}, err: sSkip{}, line: t.line(pos)})
 		}
 		// other packages
@@ -1214,49 +1486,88 @@ func main() {
 		os.Exit(2)
 	}
 	fset := token.NewFileSet()
-	dir := filepath.Join(*repo, "rpc")
-	ents, err := os.ReadDir(dir)
-	if err != nil {
-		fmt.Fprintln(os.Stderr, "locktrans:", err)
-		os.Exit(2)
-	}
-	var files []*ast.File
-	var hashes []string
-	for _, e := range ents {
-		n := e.Name()
-		if !strings.HasSuffix(n, ".go") || strings.HasSuffix(n, "_test.go") {
-			continue
-		}
-		src, err := os.ReadFile(filepath.Join(dir, n))
-		if err != nil {
-			fmt.Fprintln(os.Stderr, "locktrans:", err)
-			os.Exit(2)
-		}
-		if regexp.MustCompile(`(?m)^//go:build .*\bverif\b`).Match(src) {
-			continue // verification hooks are not part of the library
-		}
-		f, err := parser.ParseFile(fset, filepath.Join("rpc", n), src, parser.ParseComments)
-		if err != nil {
-			fmt.Fprintln(os.Stderr, "locktrans:", err)
-			os.Exit(2)
-		}
-		files = append(files, f)
-		hashes = append(hashes, fmt.Sprintf("%s %x", n, sha256.Sum256(src)))
+	if len(tab.pkgs) == 0 {
+		tab.pkgs = []pkgDef{{path: "capnproto.org/go/capnp/v3/rpc", dir: "rpc"}}
 	}
 	abs, _ := filepath.Abs(*outPath)
 	if err := os.Chdir(*repo); err != nil {
 		fmt.Fprintln(os.Stderr, "locktrans:", err)
 		os.Exit(2)
 	}
-	info := &types.Info{Uses: map[*ast.Ident]types.Object{}, Defs: map[*ast.Ident]types.Object{},
-		Types: map[ast.Expr]types.TypeAndValue{}, Selections: map[*ast.SelectorExpr]*types.Selection{}}
-	conf := types.Config{Importer: importer.ForCompiler(fset, "source", nil)}
-	pkg, err := conf.Check("capnproto.org/go/capnp/v3/rpc", fset, files, info)
-	if err != nil {
-		fmt.Fprintln(os.Stderr, "locktrans: type check failed:", err)
-		os.Exit(2)
+	g := &global{fset: fset, tab: tab, fns: map[string]*fnOut{}, params: map[types.Object]string{},
+		prefixes: map[string]string{}, declared: map[string]bool{}}
+	for _, p := range tab.pkgs {
+		g.prefixes[p.path] = p.prefix
 	}
-	g := &global{fset: fset, info: info, pkg: pkg, tab: tab, fns: map[string]*fnOut{}, params: map[types.Object]string{}}
+	var hashes []string
+	type loaded struct {
+		def   pkgDef
+		files []*ast.File
+		info  *types.Info
+		pkg   *types.Package
+	}
+	var pkgs []loaded
+	verifTag := regexp.MustCompile(`(?m)^//\s*(?:go:build|\+build) .*\bverif\b`)
+	for _, p := range tab.pkgs {
+		ents, err := os.ReadDir(p.dir)
+		if err != nil {
+			fmt.Fprintln(os.Stderr, "locktrans:", err)
+			os.Exit(2)
+		}
+		var files []*ast.File
+		for _, e := range ents {
+			n := e.Name()
+			if e.IsDir() || !strings.HasSuffix(n, ".go") || strings.HasSuffix(n, "_test.go") {
+				continue
+			}
+			src, err := os.ReadFile(filepath.Join(p.dir, n))
+			if err != nil {
+				fmt.Fprintln(os.Stderr, "locktrans:", err)
+				os.Exit(2)
+			}
+			if verifTag.Match(src) {
+				continue // verification hooks are not part of the library
+			}
+			if m := regexp.MustCompile(`(?m)^//\s*(?:go:build|\+build) (.*)$`).FindSubmatch(src); m != nil && !buildOK(string(m[1])) {
+				continue
+			}
+			f, err := parser.ParseFile(fset, filepath.Join(p.dir, n), src, parser.ParseComments)
+			if err != nil {
+				fmt.Fprintln(os.Stderr, "locktrans:", err)
+				os.Exit(2)
+			}
+			files = append(files, f)
+			if p.files == nil || p.files[n] {
+				hashes = append(hashes, fmt.Sprintf("%s %x", filepath.Join(p.dir, n), sha256.Sum256(src)))
+			}
+		}
+		info := &types.Info{Uses: map[*ast.Ident]types.Object{}, Defs: map[*ast.Ident]types.Object{},
+			Types: map[ast.Expr]types.TypeAndValue{}, Selections: map[*ast.SelectorExpr]*types.Selection{}}
+		conf := types.Config{Importer: importer.ForCompiler(fset, "source", nil)}
+		pkg, err := conf.Check(p.path, fset, files, info)
+		if err != nil {
+			fmt.Fprintln(os.Stderr, "locktrans: type check failed:", err)
+			os.Exit(2)
+		}
+		pkgs = append(pkgs, loaded{p, files, info, pkg})
+	}
+	selected := func(l loaded, f *ast.File) bool {
+		return l.def.files == nil || l.def.files[filepath.Base(fset.Position(f.Pos()).Filename)]
+	}
+	// every function that will get a lock program (calls to the others are classified by the tables)
+	for _, l := range pkgs {
+		g.info, g.pkg = l.info, l.pkg
+		for _, f := range l.files {
+			if !selected(l, f) {
+				continue
+			}
+			for _, d := range f.Decls {
+				if fd, ok := d.(*ast.FuncDecl); ok && fd.Body != nil {
+					g.declared[g.fnName(l.info.Defs[fd.Name].(*types.Func))] = true
+				}
+			}
+		}
+	}
 
 	// contract-only functions for parameters
 	var pnames []string
@@ -1269,44 +1580,51 @@ func main() {
 		g.order = append(g.order, k)
 	}
 
-	for _, f := range files {
-		for _, d := range f.Decls {
-			fd, ok := d.(*ast.FuncDecl)
-			if !ok || fd.Body == nil {
+	for _, l := range pkgs {
+		info := l.info
+		g.info, g.pkg = l.info, l.pkg
+		for _, f := range l.files {
+			if !selected(l, f) {
 				continue
 			}
-			obj := info.Defs[fd.Name].(*types.Func)
-			name := g.fnName(obj)
-			out := &fnOut{name: name, hasBody: true, pos: fset.Position(fd.Pos())}
-			if fd.Doc != nil {
-				out.doc = fd.Doc.Text()
-			}
-			if _, dup := g.fns[name]; dup {
-				g.failf(fd.Pos(), name, "duplicate function name")
-				continue
-			}
-			g.fns[name] = out
-			g.order = append(g.order, name)
-			exported := ast.IsExported(fd.Name.Name)
-			out.api = exported || strings.HasPrefix(fd.Name.Name, "handle") || fd.Name.Name == "receive"
-			out.cases = []caseC{{exits: []exitC{{}}}}
-			counter := 0
-			t := &tr{g: g, out: out, root: name, counter: &counter, results: fd.Type.Results}
-			if ct := tab.fns[name]; ct != nil {
-				ct.used = true
-				out.cases, out.explicit = ct.cases, true
-				if ct.apiSet {
-					out.api = ct.api
+			for _, d := range f.Decls {
+				fd, ok := d.(*ast.FuncDecl)
+				if !ok || fd.Body == nil {
+					continue
 				}
-				out.split = isSplit(ct.cases)
-				t.exclusive = ct.exclusive
-			}
-			for _, p := range paramObjs(info, fd.Type) {
-				if tab.params[name+"."+p.Name()] != nil {
-					g.params[p] = name + "." + p.Name()
+				obj := info.Defs[fd.Name].(*types.Func)
+				name := g.fnName(obj)
+				out := &fnOut{name: name, hasBody: true, pos: fset.Position(fd.Pos())}
+				if fd.Doc != nil {
+					out.doc = fd.Doc.Text()
 				}
+				if _, dup := g.fns[name]; dup {
+					g.failf(fd.Pos(), name, "duplicate function name")
+					continue
+				}
+				g.fns[name] = out
+				g.order = append(g.order, name)
+				exported := ast.IsExported(fd.Name.Name)
+				out.api = exported || strings.HasPrefix(fd.Name.Name, "handle") || fd.Name.Name == "receive"
+				out.cases = []caseC{{exits: []exitC{{}}}}
+				counter := 0
+				t := &tr{g: g, out: out, root: name, counter: &counter, results: fd.Type.Results}
+				if ct := tab.fns[name]; ct != nil {
+					ct.used = true
+					out.cases, out.explicit = ct.cases, true
+					if ct.apiSet {
+						out.api = ct.api
+					}
+					out.split = isSplit(ct.cases)
+					t.exclusive = ct.exclusive
+				}
+				for _, p := range paramObjs(info, fd.Type) {
+					if tab.params[name+"."+p.Name()] != nil {
+						g.params[p] = name + "." + p.Name()
+					}
+				}
+				out.body = t.funcBody(fd.Body)
 			}
-			out.body = t.funcBody(fd.Body)
 		}
 	}
 	for name, ct := range tab.fns {
@@ -1341,11 +1659,11 @@ func main() {
 		doc := strings.Join(strings.Fields(f.doc), " ")
 		says, saysNot := docHolding.MatchString(doc), docNotHolding.MatchString(doc)
 		for _, c := range f.cases {
-			if says && !saysNot && !c.entry.mu {
-				g.errs = append(g.errs, fmt.Sprintf("%s: function %s: the doc comment says the caller holds c.mu but the contract entry does not", f.pos, f.name))
+			if says && !saysNot && !c.entry.anyMutex() {
+				g.errs = append(g.errs, fmt.Sprintf("%s: function %s: the doc comment says the caller holds a mutex but the contract entry has none", f.pos, f.name))
 			}
-			if saysNot && c.entry.mu {
-				g.errs = append(g.errs, fmt.Sprintf("%s: function %s: the doc comment says the caller must not hold c.mu but the contract entry has it", f.pos, f.name))
+			if saysNot && c.entry.anyMutex() {
+				g.errs = append(g.errs, fmt.Sprintf("%s: function %s: the doc comment says the caller must not hold the mutex but the contract entry has one", f.pos, f.name))
 			}
 		}
 	}
@@ -1477,11 +1795,11 @@ func tidy(s Stmt) Stmt {
 }
 
 func locksCoq(l lstate) string {
-	h := "[]"
-	if l.mu {
-		h = "[0]"
+	var ids []string
+	for _, id := range l.held {
+		ids = append(ids, fmt.Sprint(id))
 	}
-	return fmt.Sprintf("%s %v", h, l.sender)
+	return fmt.Sprintf("[%s] %v", strings.Join(ids, "; "), l.sender)
 }
 
 func emit(g *global, hashes []string, defName string) string {
